@@ -26,7 +26,7 @@ use bitcoin::{Transaction, Txid};
 use lightning::chain::chaininterface::ConfirmationTarget;
 use lightning::chain::chainmonitor::Persist;
 use lightning::chain::channelmonitor::{ChannelMonitor, ChannelMonitorUpdate};
-use lightning::chain::{BlockLocator, ChannelMonitorUpdateStatus};
+use lightning::chain::{BlockLocator, ChannelMonitorUpdateStatus, Listen};
 use lightning::events::Event;
 use lightning::ln::channelmanager::{ChannelManagerReadArgs, PaymentId};
 use lightning::ln::functional_test_utils::*;
@@ -337,6 +337,7 @@ struct World {
 	snapshot: [Option<Vec<u8>>; 2],
 	fee: u32,
 	fee0: u32,
+	last_replayed: usize,
 }
 
 impl World {
@@ -501,7 +502,11 @@ impl World {
 				let _ = self.nodes[n].chain_monitor.chain_monitor.get_and_clear_pending_msg_events();
 				let _ = self.nodes[n].chain_monitor.chain_monitor.get_and_clear_pending_events();
 				self.nodes[n].chain_monitor.added_monitors.lock().unwrap().clear();
-				let txn = self.nodes[n].tx_broadcaster.txn_broadcast();
+				// The on-chain claim machinery walks std HashMaps (randomly keyed per process): the
+				// ORDER of the claim transactions handed to the broadcaster within one call is not
+				// reproducible, the set is. Canonicalise the order within one drain.
+				let mut txn = self.nodes[n].tx_broadcaster.txn_broadcast();
+				txn.sort_by_key(|t| t.compute_txid().to_string());
 				for tx in txn {
 					activity = true;
 					let txid = tx.compute_txid();
@@ -537,6 +542,33 @@ impl World {
 						obs[n].log.push(format!("[\"?{}\",{},\"{}\"]", c.kind, c.number, txs));
 					}
 				},
+			}
+		}
+		for n in 0..2 {
+			Self::canon_log(&mut obs[n].log);
+		}
+	}
+
+	/// The on-chain claim machinery (OnchainTxHandler) walks randomly keyed std HashMaps, so the
+	/// relative order of the holder-side signing calls it makes within one call is not
+	/// reproducible across processes. Every maximal contiguous run of `sign_holder` /
+	/// `sign_holder_htlc` / `unsafe_sign_holder` entries is therefore sorted (the multiset of
+	/// entries and their position relative to all other kinds of calls are preserved).
+	fn canon_log(log: &mut Vec<String>) {
+		let onchain = |s: &String| {
+			s.starts_with("[\"sign_holder\"") || s.starts_with("[\"sign_holder_htlc\"") || s.starts_with("[\"unsafe_sign_holder\"")
+		};
+		let mut i = 0;
+		while i < log.len() {
+			if onchain(&log[i]) {
+				let mut j = i;
+				while j < log.len() && onchain(&log[j]) {
+					j += 1;
+				}
+				log[i..j].sort();
+				i = j;
+			} else {
+				i += 1;
 			}
 		}
 	}
@@ -674,6 +706,21 @@ impl World {
 		node.node = mgr_ref;
 		node.onion_messenger.set_offers_handler(mgr_ref);
 		node.onion_messenger.set_async_payments_handler(mgr_ref);
+		// A restarted manager must be brought to the chain tip before anything else (a stale one
+		// is behind the monitors): replay the blocks it has not seen, in order, with their
+		// transactions. The monitors are already at the tip.
+		let bb = mgr_ref.current_best_block();
+		let blocks = node.blocks.lock().unwrap().clone();
+		let mut replayed = 0;
+		if let Some(pos) = blocks.iter().position(|(b, h)| b.block_hash() == bb.block_hash && *h == bb.height) {
+			for (b, h) in blocks[pos + 1..].iter() {
+				Listen::block_connected(mgr_ref, b, *h);
+				replayed += 1;
+			}
+		} else {
+			return Err("manager best block not on the node's chain".to_string());
+		}
+		self.last_replayed = replayed;
 		Ok(())
 	}
 
@@ -876,6 +923,7 @@ fn run_scenario(seed: u64, k: u64, max_steps: u64, flags: &Flags, rec: &Rc<RefCe
 		snapshot: [None, None],
 		fee: fee0,
 		fee0,
+		last_replayed: 0,
 	});
 
 	// setup noise is not part of the trace
@@ -924,9 +972,18 @@ fn run_scenario(seed: u64, k: u64, max_steps: u64, flags: &Flags, rec: &Rc<RefCe
 	}
 
 	// destructive behaviours start at a random point of the scenario so that closes are spread in time
-	let adv_start = if flags.adv { rng.below(max_steps.max(1)) } else { u64::MAX };
-	let close_start = if flags.close { max_steps / 4 + rng.below((max_steps - max_steps / 4).max(1)) } else { u64::MAX };
-	let stale_start = if flags.reload { max_steps / 4 + rng.below((max_steps - max_steps / 4).max(1)) } else { u64::MAX };
+	// Each destructive family is active in about half of the scenarios and starts at a random point,
+	// so that channel lifetimes are spread (some channels live through the whole scenario).
+	let late = |rng: &mut Rng| max_steps / 4 + rng.below((max_steps - max_steps / 4).max(1));
+	let adv_on = rng.below(2) == 0;
+	let adv_at = rng.below(max_steps.max(1));
+	let close_on = rng.below(2) == 0;
+	let close_at = late(&mut rng);
+	let stale_on = rng.below(2) == 0;
+	let stale_at = late(&mut rng);
+	let adv_start = if flags.adv && adv_on { adv_at } else { u64::MAX };
+	let close_start = if flags.close && close_on { close_at } else { u64::MAX };
+	let stale_start = if flags.reload && stale_on { stale_at } else { u64::MAX };
 
 	for step in 0..max_steps {
 		let views = [w.view(0), w.view(1)];
@@ -943,37 +1000,37 @@ fn run_scenario(seed: u64, k: u64, max_steps: u64, flags: &Flags, rec: &Rc<RefCe
 			w.want_disc = false;
 			for n in 0..2 {
 				if w.connected && !w.q[n].is_empty() {
-					en.push((14, Act::Deliver(n)));
+					en.push((28, Act::Deliver(n)));
 				}
 			}
 			for n in 0..2 {
 				if w.nodes[n].node.needs_pending_htlc_processing() {
-					en.push((8, Act::Fwd(n)));
+					en.push((16, Act::Fwd(n)));
 				}
 			}
 			for n in 0..2 {
 				if ready && w.connected {
-					en.push((3, Act::Send(n)));
+					en.push((6, Act::Send(n)));
 				}
 			}
 			for n in 0..2 {
 				if !w.claimable[n].is_empty() {
-					en.push((4, Act::Claim(n)));
-					en.push((1, Act::Fail(n)));
+					en.push((8, Act::Claim(n)));
+					en.push((2, Act::Fail(n)));
 				}
 			}
 			if ready && w.connected {
-				en.push((1, Act::Fee));
+				en.push((2, Act::Fee));
 			}
 			if w.connected {
-				en.push((1, Act::Disconnect));
+				en.push((2, Act::Disconnect));
 			} else {
-				en.push((8, Act::Reconnect));
+				en.push((16, Act::Reconnect));
 			}
 			if flags.asyn {
 				for n in 0..2 {
 					if async_mode[n] {
-						en.push((3, Act::MonComplete(n)));
+						en.push((6, Act::MonComplete(n)));
 					} else if open[n] {
 						en.push((1, Act::MonAsync(n)));
 					}
@@ -987,7 +1044,7 @@ fn run_scenario(seed: u64, k: u64, max_steps: u64, flags: &Flags, rec: &Rc<RefCe
 							en.push((1, Act::Snapshot(n)));
 						}
 						if w.snapshot[n].is_some() && step >= stale_start {
-							en.push((1, Act::ReloadStale(n)));
+							en.push((2, Act::ReloadStale(n)));
 						}
 					}
 				}
@@ -995,11 +1052,11 @@ fn run_scenario(seed: u64, k: u64, max_steps: u64, flags: &Flags, rec: &Rc<RefCe
 			if flags.close {
 				for n in 0..2 {
 					if open[n] && step >= close_start {
-						en.push((1, Act::ForceClose(n)));
+						en.push((2, Act::ForceClose(n)));
 					}
-					en.push((if open[n] { 1 } else { 3 }, Act::Blocks(n)));
+					en.push((if open[n] { 1 } else { 4 }, Act::Blocks(n)));
 					if w.confirmed_spend[n].is_none() && !w.spends.is_empty() {
-						en.push((4, Act::Confirm(n)));
+						en.push((8, Act::Confirm(n)));
 					}
 				}
 			}
@@ -1098,7 +1155,7 @@ fn run_scenario(seed: u64, k: u64, max_steps: u64, flags: &Flags, rec: &Rc<RefCe
 				let bytes = w.nodes[n].node.encode();
 				rec.borrow_mut().reloaded = true;
 				match w.do_reload(n, &bytes) {
-					Ok(()) => args = "\"err\":null".to_string(),
+					Ok(()) => args = format!("\"err\":null,\"replayed\":{}", w.last_replayed),
 					Err(e) => {
 						args = format!("\"err\":{}", js(&e));
 						end = true;
@@ -1112,7 +1169,7 @@ fn run_scenario(seed: u64, k: u64, max_steps: u64, flags: &Flags, rec: &Rc<RefCe
 				let bytes = w.snapshot[n].take().unwrap();
 				rec.borrow_mut().stale = true;
 				match w.do_reload(n, &bytes) {
-					Ok(()) => args = "\"err\":null".to_string(),
+					Ok(()) => args = format!("\"err\":null,\"replayed\":{}", w.last_replayed),
 					Err(e) => {
 						args = format!("\"err\":{}", js(&e));
 						end = true;
